@@ -72,11 +72,13 @@ a -> b: L3 {
 	{Name: "layers", Text: `a: L1
 b: L2
 a -> b: L3
+
 layers: {
   x: {
     c: L4
     d: L5
     c -> d: L6
+
     layers: {
       y: {
         e: L7
@@ -91,12 +93,14 @@ layers: {
 	{Name: "scenario-steps", Text: `a: L1
 b: L2
 a -> b: L3
+
 scenarios: {
   s: {
     c: L4
     a -> c: L5
   }
 }
+
 steps: {
   p: {
     d: L6
@@ -147,6 +151,83 @@ a -> k: L5
 o: L6
 `},
 }
+
+// boardTreeSeeds: every tree of two or three nested boards of depth <= 2 over the three board kinds
+// (siblings grouped by kind in the order layers, scenarios, steps), each board with one object and one
+// connection of its own. Thorough tier of C41 only (Tier 2).
+func boardTreeSeeds() []Seed {
+	kinds := []string{"layers", "scenarios", "steps"}
+	type bd struct {
+		kind  int
+		child int // kind of the nested board, -1 = none
+	}
+	var out []Seed
+	emit := func(bs []bd) {
+		n := 0
+		lbl := 3
+		body := func(ind string, withBase bool) string {
+			n++
+			lbl += 2
+			src := "a"
+			if !withBase {
+				src = fmt.Sprintf("o%d", n)
+				return fmt.Sprintf("%s%s: L%d\n%sp%d: L%d\n%s%s -> p%d\n", ind, src, lbl+40, ind, n, lbl, ind, src, n)
+			}
+			return fmt.Sprintf("%sp%d: L%d\n%s%s -> p%d: L%d\n", ind, n, lbl, ind, src, n, lbl+1)
+		}
+		var sb strings.Builder
+		sb.WriteString("a: L1\nb: L2\na -> b: L3\n")
+		name := ""
+		for k := range kinds {
+			var grp []bd
+			for _, b := range bs {
+				if b.kind == k {
+					grp = append(grp, b)
+				}
+			}
+			if len(grp) == 0 {
+				continue
+			}
+			sb.WriteString("\n" + kinds[k] + ": {\n")
+			for _, b := range grp {
+				bn := fmt.Sprintf("%c%d", kinds[k][0], n+1)
+				name += kinds[k][:2]
+				sb.WriteString("  " + bn + ": {\n")
+				sb.WriteString(body("    ", k != 0))
+				if b.child >= 0 {
+					name += "(" + kinds[b.child][:2] + ")"
+					cn := fmt.Sprintf("%c%d", kinds[b.child][0], n+1)
+					sb.WriteString("\n    " + kinds[b.child] + ": {\n      " + cn + ": {\n")
+					sb.WriteString(body("        ", b.child != 0))
+					sb.WriteString("      }\n    }\n")
+				}
+				sb.WriteString("  }\n")
+			}
+			sb.WriteString("}\n")
+		}
+		out = append(out, Seed{Name: "boards:" + name, Text: sb.String(), Tier: 2})
+	}
+	for k1 := 0; k1 < 3; k1++ {
+		for c := 0; c < 3; c++ {
+			emit([]bd{{k1, c}}) // parent with one nested board
+		}
+		for k2 := k1; k2 < 3; k2++ {
+			emit([]bd{{k1, -1}, {k2, -1}}) // two siblings
+			for k3 := k2; k3 < 3; k3++ {
+				emit([]bd{{k1, -1}, {k2, -1}, {k3, -1}}) // three siblings
+			}
+			for c := 0; c < 3; c++ {
+				emit([]bd{{k1, c}, {k2, -1}}) // two siblings, the first has a nested board
+				if k1 != k2 || k1 == 2 {
+					emit([]bd{{k1, -1}, {k2, c}}) // … the second has it
+				}
+			}
+		}
+	}
+	return out
+}
+
+func init() { Seeds = append(Seeds, boardTreeSeeds()...) }
 
 // ---- menu --------------------------------------------------------------------------------------------
 
